@@ -505,7 +505,7 @@ def _worker(shard, nshards, tier, seed):
                 fail("compile_frame." + what_changed(snaps[k], now), label, base, npath, "compiling the result changed the cache key of ancestor %d" % k,
                      dict(ancestor=k, differs=["key"], before=_j(snaps[k], ["key"]), after=_j(now, ["key"])))
                 snaps[k] = now
-        if len(npath) <= 2 and (depth == 1 or len(npath) == 1):
+        if len(npath) <= 2:
             out["copies"] += 1
             for how, what, detail, payload in copies(nxt, ns, rotate=None if len(npath) == 1 else out["copies"]):
                 fail("copy[%s].%s" % (how, what), label, base, npath, detail, payload)
